@@ -241,6 +241,7 @@ class UnionConverter(Converter[t.Any]):
         self.types = tuple(flatten_union_args(types))
         self.converters = tuple(make_converter(ty, handlers) for ty in types)
         self.constructor = constructor
+        self.handlers = handlers
 
     def expected(self, plural: bool = False) -> str:
         """See [`Converter.expected`][pane.converters.Converter.expected]"""
@@ -258,8 +259,8 @@ class UnionConverter(Converter[t.Any]):
                 pass
             else:
                 return conv.into_data(val)
-        # default to regular conversion
-        return into_data(val)
+        # default to regular conversion (by the value's own type), keeping the custom handlers
+        return make_converter(t.cast(t.Type[t.Any], type(val)), self.handlers).into_data(val)
 
     def construct(self, val: t.Any, i: int) -> t.Any:
         if self.constructor is None:
